@@ -8,6 +8,7 @@ correspondence with boundary-dense name lengths, sizes, offsets and counts.
 -/
 import GoNfsd.Lemmas.FsStep
 import GoNfsd.Gen.Announce
+import GoNfsd.Lemmas.Dirty
 
 namespace GoNfsd.Props.C19
 open GoNfsd.Model.Fs GoNfsd.Gen.Consts
@@ -120,8 +121,8 @@ theorem rtmax_served (s : FS) (c : Choice) (fh : Bytes) (off count : Nat) (i : N
 
 /-- The announced maximum transfer fits the journal on every disk: its data blocks (one more
     when unaligned), four index blocks, the inode block and the block-bitmap blocks never exceed
-    the 511-block log.  (Arithmetic half of `wtmax_fits_journal`; that a WRITE dirties at most
-    these blocks is a statement about the block-map model, listed as pending.) -/
+    the 511-block log.  (Arithmetic half of `wtmax_fits_journal`; the other half is
+    `write_dirties_at_most_four_index_blocks` below.) -/
 theorem wtmax_fits_journal_arith (disksz : Nat) :
     wtmaxOf disksz / BlockSize + 1 + 4 + 1 + min (GoNfsd.Gen.Super.MkFsSuper disksz).NBlockBitmap (LogBlocks / 2)
       ≤ LogBlocks ∧ wtmaxOf disksz % BlockSize = 0 ∧ 0 < wtmaxOf disksz := by
@@ -129,6 +130,26 @@ theorem wtmax_fits_journal_arith (disksz : Nat) :
   generalize (GoNfsd.Gen.Super.MkFsSuper disksz).NBlockBitmap = nbb
   have : min nbb (511 / 2) ≤ 255 := by simp; omega
   omega
+
+/-- The other half, on the block-map model M7: a WRITE of the announced maximum spans at most
+    `wtmax/4096 + 1 ≤ 513` file blocks, and a WRITE of up to 513 consecutive file blocks writes
+    to the contents of at most FOUR index blocks — the indirect root, the double-indirect root and
+    two neighbouring middle blocks (whatever it has to allocate on the way, and also when the
+    allocator runs dry in the middle). -/
+theorem write_dirties_at_most_four_index_blocks (disksz : Nat)
+    (s : GoNfsd.Model.BlockMap.S) (ino : GoNfsd.Model.BlockMap.Ino) (bn n : Nat)
+    (h : GoNfsd.Model.BlockMap.WFB s ino.blks) (hn : n ≤ wtmaxOf disksz / BlockSize + 1)
+    (hle : bn + n ≤ GoNfsd.Model.BlockMap.MAXBLKS) (y x : Nat)
+    (hch : (GoNfsd.Model.BlockMap.writeBlocks s ino bn n 0).1.st y x ≠ s.st y x) :
+    ∃ P ∈ [GoNfsd.Model.BlockMap.Pos.iroot, GoNfsd.Model.BlockMap.Pos.droot,
+           GoNfsd.Model.BlockMap.Pos.dmid ((bn - NDIRECT - NBLKBLK) / NBLKBLK),
+           GoNfsd.Model.BlockMap.Pos.dmid ((bn - NDIRECT - NBLKBLK) / NBLKBLK + 1)],
+      GoNfsd.Model.BlockMap.ptr (GoNfsd.Model.BlockMap.writeBlocks s ino bn n 0).1.st
+        (GoNfsd.Model.BlockMap.writeBlocks s ino bn n 0).2.1.blks P = y := by
+  have hw := (wtmax_fits_journal_arith disksz).1
+  have hn' : n ≤ NBLKBLK + 1 := by
+    simp only [LogBlocks, NBLKBLK] at *; omega
+  exact GoNfsd.Model.BlockMap.write_touches_four_index_blocks s ino bn n h hn' hle y x hch
 
 /-- Non-vacuity: on a fresh file system a 112-byte name is accepted and a 113-byte name is not. -/
 example :
